@@ -710,6 +710,14 @@ func (g *Gen) expandMod(pat string) []string {
 	if pat == "bytes" {
 		return []string{g.m.compSliceHeap("Int"), "alloc"}
 	}
+	if strings.HasPrefix(pat, "H_") {
+		if _, ok := g.m.comps[pat]; !ok {
+			switch pat[2:] {
+			case "Str", "Int", "Bool":
+				g.m.compSliceHeap(pat[2:])
+			}
+		}
+	}
 	if _, ok := g.m.comps[pat]; !ok && pat != "alloc" {
 		g.warnings = append(g.warnings, "modifies: unknown component "+pat)
 		return nil
